@@ -43,6 +43,10 @@ class Prop:
             if form == "merge_mc":
                 sc["a"]["mc"] = rng.randrange(1, 4)
         sc["sources"] = ctx.sources
+        off = rng.choice([None, None, None, 37, 123, 411])
+        if off:
+            sc["sub2_t"] = 205 + off
+            sc["horizon"] = 3500
         return sc
 
     def build(self, w, sc):
@@ -84,7 +88,7 @@ class Prop:
         nsubs = sum(len(w.sources[s].subs) for s in sc["inners"])
         out.nontrivial = out.nontrivial and nsubs >= 2
         mc = 1 if sc["form"] == "concat_map" else sc["a"].get("mc")
-        if mc:
+        if mc and sc.get("sub2_t") is None:
             # never more than n inners subscribed at once (sequence numbers)
             evs = []
             for sid in sc["inners"]:
